@@ -394,8 +394,81 @@ def threads(case):
   return info
 
 
-SUBS = {'fold': fold, 'threads': threads}
-TIMEOUTS = {'fold': 1500, 'threads': 2400}
+def selection_histories(case):
+  """The backend selection of the calling thread while a (lazy) result stream of a for_each_client function is alive:
+  a function is CREATED under one selection and CONSUMED (fully, partially, with a set_for_each_client_backend in
+  between, with an exception in the consumer) under another; after every step the thread's selection must be exactly
+  what its own set/with operations say - running or holding a result stream changes nothing."""
+  import jax.numpy as jnp
+  import fedjax
+  from fedjax.core import for_each_client as fec
+  made, consume, step = case['made_under'], case['consumed_under'], case['scenario']
+  sel = lambda name: {None: fec.BackendChoice.DEFAULT_BACKEND}.get(name, name)
+
+  def name_of():
+    b = fec.get_for_each_client_backend()
+    if b is fec.BackendChoice.DEFAULT_BACKEND or b is None:
+      return 'default'
+    return {'ForEachClientDebugBackend': 'debug', 'ForEachClientJitBackend': 'jit', 'ForEachClientPmapBackend': 'pmap'}.get(
+        type(b).__name__, type(b).__name__)
+  fec.set_for_each_client_backend(None)   # whatever an earlier (violating) case of this process left behind
+  init = lambda shared, ci: {'s': shared['w'] * ci}
+  stepf = lambda st, b: {'s': st['s'] + jnp.sum(b['x'])}
+  final = lambda shared, st: st['s']
+  clients = [(b'c%d' % i, [{'x': jnp.asarray([1.0 + i, 2.0])}] * (i % 3), jnp.asarray(1.0 + i)) for i in range(4)]
+  want = {c[0]: float(1.0 * (1.0 + i) + (i % 3) * (3.0 + i)) for i, c in enumerate(clients)}
+  base = name_of()
+  require(base == 'default', 'harness: the thread starts with a non-default selection', 'default', base)
+  with fec.for_each_client_backend(sel(made)) if made else _null():
+    f = fedjax.for_each_client(init, stepf, final)
+  require(name_of() == 'default', 'creating a for_each_client function changed the selection', 'default', name_of(), case=case)
+  evals = 0
+  with fec.for_each_client_backend(sel(consume)) if consume else _null():
+    ambient = name_of()
+    it = iter(f({'w': jnp.asarray(1.0)}, clients))
+    got = {}
+    cid, out = next(it)
+    got[cid] = float(out)
+    require(name_of() == ambient, 'holding a partially consumed result stream changed the thread\'s backend selection',
+            ambient, name_of(), case=case)
+    if step == 'set_between':
+      fec.set_for_each_client_backend('debug')
+      ambient = 'debug'
+    if step == 'abandon':
+      del it
+    elif step == 'raise':
+      try:
+        for cid, out in it:
+          raise Boom()
+      except Boom:
+        pass
+    else:
+      for cid, out in it:
+        got[cid] = float(out)
+        require(name_of() == ambient, 'consuming a result stream changed the thread\'s backend selection', ambient, name_of(),
+                case=case)
+      require(got == want, 'results differ from the sequential fold', want, got, case=case)
+    import gc
+    gc.collect()
+    require(name_of() == ambient, 'after the result stream ended (%s) the selection is not what the thread selected' % step,
+            ambient, name_of(), case=case)
+    evals += 1
+  fec.set_for_each_client_backend(None)
+  require(name_of() == 'default', 'the selection was not restored after the contexts exited', 'default', name_of(), case=case)
+  return {'evals': evals, 'states': evals, 'transitions': evals * 3, 'traces': evals, 'nontrivial': made != consume,
+          'outcome': [made, consume, step]}
+
+
+import contextlib as _contextlib
+
+
+@_contextlib.contextmanager
+def _null():
+  yield
+
+
+SUBS = {'fold': fold, 'threads': threads, 'selection_histories': selection_histories}
+TIMEOUTS = {'fold': 1500, 'threads': 2400, 'selection_histories': 600}
 
 
 # sub-spaces re-executed under other interpreter configurations (mc.core.CONFIGS): {configuration: {sub-space: stride}}
@@ -431,6 +504,8 @@ def plan(ctx):
       fc.append({'prog': prog, 'profile': profile, 'backends': backends, 'seed': ctx.seed, 'iter': False, 'typed_keys': True})
   # group by program so that each worker compiles few backends: chunk = contiguous cases
   ctx.pmap('fold', fc, chunk=max(4, len(fc) // 32))
+  ctx.run('selection_histories', [{'made_under': m, 'consumed_under': c, 'scenario': sc} for m in (None, 'debug', 'jit')
+                                  for c in (None, 'debug', 'jit') for sc in ('exhaust', 'abandon', 'raise', 'set_between')])
   p1 = enum_programs(1)
   p2 = p1 + enum_programs(2)
   tc = []
